@@ -418,7 +418,7 @@ struct FovFloatAlphabet { fovs: Vec<f64>, e_nf: Vec<i32>, e_wh: Vec<i32> }
 
 /// perspective family at element type T
 fn fov_float_tier<T: Fl>(s: &Section, al: &FovFloatAlphabet) {
-    s.require_classes(&["fov<pi/2", "pi/2<fov<pi", "fov>pi", "perspective", "perspective_fov", "tweaked_infinite", "infinite", "unscaled", "near-far-scaled-up", "near-far-scaled-down", "viewport-scaled-up", "viewport-scaled-down"]);
+    s.require_classes(&["fov<pi/2", "pi/2<fov<pi", "fov>pi", "narrow fov (< 0.03 rad)", "perspective", "perspective_fov", "tweaked_infinite", "infinite", "unscaled", "near-far-scaled-up", "near-far-scaled-down", "viewport-scaled-up", "viewport-scaled-down"]);
     let aspects = [0.5f64, 1.0, 16.0 / 9.0];
     let nfs = [(0.1f64, 100.0f64), (1.0, 2.0), (0.5, 1000.0)];
     assert!(al.e_nf[0] == 0 && al.e_wh[0] == 0, "the first scale must be the unscaled one");
@@ -452,6 +452,10 @@ fn fov_float_tier<T: Fl>(s: &Section, al: &FovFloatAlphabet) {
                     let mut base: Option<A<T, 4>> = None;
                     for (s2i, &e2) in al.e_nf.iter().enumerate() { for (s1i, &e1) in e_wh.iter().enumerate() {
                         let unscaled = s2i == 0 && s1i == 0;
+                        // narrow fields of view: cot(fov/2) is up to 2e7, so the constructors' own intermediates (h*height) leave the float
+                        // range at the extreme viewport/near-far scales of this alphabet; narrow fovs are run unscaled only
+                        if fov < 0.03 && !unscaled { continue; }
+                        if fov < 0.03 && lay == 0 && k == 0 { cl("narrow fov (< 0.03 rad)"); }
                         if lay == 0 && (k == 0 || k == 4) {
                             if unscaled { cl("unscaled"); }
                             if e2 > 0 { cl("near-far-scaled-up"); } if e2 < 0 { cl("near-far-scaled-down"); }
@@ -897,11 +901,15 @@ fn main() {
         let mut fovs: Vec<f64> = (0..n).map(|i| 0.05 + i as f64 * 3.04 / (n - 1) as f64).collect();
         let beyond: &[f64] = if th { &[3.2, 3.5, 4.0, 4.5, 5.0, 5.5, 6.0, 6.2] } else { &[3.5, 4.5, 5.5, 6.0] };
         fovs.extend_from_slice(beyond);
+        // narrow fields of view (telephoto / picking): cot(fov/2) is huge but well conditioned; a half-angle rewrite through
+        // sin(fov)/(1 - cos(fov)) cancels catastrophically here
+        let narrow: &[f64] = if f32_ { &[0.02, 4e-3, 1e-3, 2.5e-4] } else { &[0.02, 1e-3, 1e-5, 1e-7] };
+        fovs.extend_from_slice(narrow);
         FovFloatAlphabet { fovs,
             e_nf: if f32_ { if th { vec![0, 13, -13, 27, -27, 40, -40, 55, -55] } else { vec![0, 40, -40, 55, -55] } } else if th { vec![0, 100, -100, 250, -250, 400, -400, 500, -500] } else { vec![0, 400, -400, 500, -500] },
             e_wh: if f32_ { if th { vec![0, 13, -13, 40, -40, 70, -70, 100, -100] } else { vec![0, 40, -40, 100, -100] } } else if th { vec![0, 100, -100, 400, -400, 700, -700, 1000, -1000] } else { vec![0, 400, -400, 1000, -1000] } }
     };
-    let fov_rule = |ty: &str, al: &FovFloatAlphabet| format!("element type {}: fov = 0.05 + i*3.04/{} for i in 0..{} (inside (0, pi)) and {} values in (pi, 2 pi) (allowed by the preconditions; tan(fov/2) < 0), rounded to {} x aspect (or width/height pairs) from {{0.5, 1, 16/9}} x (near, far) in {{(0.1, 100), (1, 2), (0.5, 1000)}} (rounded to {}) x epsilon in {{0, 2^-10}} x (near, far) multiplied by 2^e, e in {:?} x (perspective_fov only) (width, height) multiplied by 2^e, e in {:?} x 12 constructors x 2 layouts.  (a) corners implied by t = tan(fov/2) (oracle, libm, f64, from the rounded fov): |ndc - want| <= 256 eps_{} (sum|terms|/|w| + 1), w > 0 (infinite constructors: near rectangle scaled to 1, 2, 5, 100 times near, depth (1-eps) - (2-eps)*near/d); (b) bit for bit: matrix(scaled args) == matrix(args) except entry (2,3), which is multiplied by 2^e(near,far) (exact while nothing overflows or goes subnormal; the constructors' own intermediates, at most 2*far*near and h*height, stay in range on this alphabet); (c) perspective_* / perspective_fov_* against the real frustum_* of the implied planes (top = near*t, right = top*aspect, computed in f64, rounded to {}): entrywise |difference| <= 256 eps_{} |entry|, zero entries exactly zero; (d) left-handed == right-handed with column 2 negated, (e) the two layouts, bit for bit.  one evaluation per corner / per matrix identity; non-trivial: all", ty, al.fovs.len() - if th { 8 } else { 4 } - 1, al.fovs.len() - if th { 8 } else { 4 }, if th { 8 } else { 4 }, ty, ty, al.e_nf, al.e_wh, ty, ty, ty);
+    let fov_rule = |ty: &str, al: &FovFloatAlphabet| format!("element type {}: fov = 0.05 + i*3.04/{} for i in 0..{} (inside (0, pi)) and {} values in (pi, 2 pi) (allowed by the preconditions; tan(fov/2) < 0) and 4 narrow fields of view down to 2.5e-4 (f32) / 1e-7 (f64), rounded to {} x aspect (or width/height pairs) from {{0.5, 1, 16/9}} x (near, far) in {{(0.1, 100), (1, 2), (0.5, 1000)}} (rounded to {}) x epsilon in {{0, 2^-10}} x (near, far) multiplied by 2^e, e in {:?} x (perspective_fov only) (width, height) multiplied by 2^e, e in {:?} x 12 constructors x 2 layouts.  (a) corners implied by t = tan(fov/2) (oracle, libm, f64, from the rounded fov): |ndc - want| <= 256 eps_{} (sum|terms|/|w| + 1), w > 0 (infinite constructors: near rectangle scaled to 1, 2, 5, 100 times near, depth (1-eps) - (2-eps)*near/d); (b) bit for bit: matrix(scaled args) == matrix(args) except entry (2,3), which is multiplied by 2^e(near,far) (exact while nothing overflows or goes subnormal; the constructors' own intermediates, at most 2*far*near and h*height, stay in range on this alphabet); (c) perspective_* / perspective_fov_* against the real frustum_* of the implied planes (top = near*t, right = top*aspect, computed in f64, rounded to {}): entrywise |difference| <= 256 eps_{} |entry|, zero entries exactly zero; (d) left-handed == right-handed with column 2 negated, (e) the two layouts, bit for bit.  one evaluation per corner / per matrix identity; non-trivial: all", ty, al.fovs.len() - 4 - if th { 8 } else { 4 } - 1, al.fovs.len() - 4 - if th { 8 } else { 4 }, if th { 8 } else { 4 }, ty, ty, al.e_nf, al.e_wh, ty, ty, ty);
     { let al = mk_fov_alpha(false); rep.section("perspective family, f64 tier at magnitudes 2^-500 .. 2^500 (sizes 2^-1000 .. 2^1000), fov up to 2 pi, matrix equalities", &fov_rule("f64", &al), true, false, |s| fov_float_tier::<f64>(s, &al)); }
     { let al = mk_fov_alpha(true); rep.section("perspective family, f32 tier at magnitudes 2^-55 .. 2^55 (sizes 2^-100 .. 2^100), fov up to 2 pi, matrix equalities", &fov_rule("f32", &al), true, false, |s| fov_float_tier::<f32>(s, &al)); }
 
